@@ -26,6 +26,7 @@ func init() {
 		Explanation: "R1 co-update (loop-header φ comparison in the path evaluator — the function of package parsepath that ranges over a protopath.Path and moves a protoreflect.Value cursor): on every path round the loop, if the value cursor changes then the descriptor cursor changes too (a step may retarget the descriptor without moving the value, never the reverse). " +
 			"R2 descriptor transfer (the part of the planned R2 that is decidable from the evaluator alone): a value cursor taken out of a protoreflect.Map comes with a descriptor cursor taken from FieldDescriptor.MapValue(); one taken out of a List does not. " +
 			"R3 exhaustiveness: the evaluator's step-kind switch covers every protopath.StepKind constant; the parser's token switch covers every token-kind constant of the package except those compared elsewhere (end of input) and has an error default; ParsePath returns a path only on a path dominated by the end-of-input test and a true state predicate. " +
+			"R11 (= C03.R9) the CLI's output back end replaces an existing output file wholly, so the file left by inspect --out is the field bytes and nothing else. " +
 			"R5 raw renderings: InspectPayload / InspectSignature hand the field bytes (same access path as the endorsement field) to WriteBytesForm, and WriteBytesForm's raw arm writes its parameter itself. " +
 			"R5b the Form field of the inspection options is never written outside construction (the byte form is an input of each rendering, not state carried from one writer to the next). " +
 			"R6 numeral agreement (siblings): every strconv conversion of the stored text of a number token (list index, each map-key kind) reads it in the same base, so one spelling denotes one number whatever the step kind. " +
@@ -40,6 +41,10 @@ func init() {
 }
 
 func runC19(c *Ctx) {
+	// R11 = C03.R9: the file a raw rendering is written to (inspect --out) holds exactly the bytes handed to the
+	// writer: the output back end replaces an existing file wholly (an open without truncation keeps the old tail of a
+	// longer file after the field bytes).
+	c.borrow("R11/C03.", runC03, func(rule, _ string) bool { return rule == "R9" })
 	gcePkg := repoPath("gcetcbendorsement")
 	epbPkg := repoPath("proto/endorsement")
 	// ---- discover the evaluator ----
